@@ -20,7 +20,7 @@ def _prepare_env():
             if f.endswith('.py'):
                 with open(os.path.join(root, f), 'rb') as fh:
                     h.update(f.encode() + b'\0' + fh.read())
-    base = os.environ.get('VERIF_BUILD', '/verif/build')
+    base = os.environ.get('VERIF_BUILD') or os.path.join(os.path.dirname(os.path.dirname(os.path.abspath(__file__))), 'build')
     cache = os.path.join(base, 'numba-' + h.hexdigest()[:16])
     os.makedirs(cache, exist_ok=True)
     os.environ['NUMBA_CACHE_DIR'] = cache
@@ -62,9 +62,12 @@ def main():
         return 3
     me = 0
     kids = []
+    import random as _random
+    _rstate = _random.getstate()          # fork re-seeds `random` in the child; servers must keep the post-import state
     for i in range(1, len(pairs)):
         pid = os.fork()
         if pid == 0:
+            _random.setstate(_rstate)
             me = i
             kids = []
             break
